@@ -672,6 +672,13 @@ func (e *Exec) modularCall(st *State, ct *Contract, sig *types.Signature, args [
 					}
 				}
 			}
+			// assumed after the call in that property's run only: in the runs of other properties the
+			// obligation is not checked, and a precondition that does not hold would make everything after the
+			// call vacuous there
+			e.curAssumeProps = cl.Props
+			e.assume(st, g)
+			e.curAssumeProps = nil
+			continue
 		}
 		e.assume(st, g)
 	}
@@ -865,7 +872,11 @@ func (e *Exec) modularCall(st *State, ct *Contract, sig *types.Signature, args [
 		if !ok {
 			continue
 		}
+		// a postcondition stated for property P of a callee that has a precondition stated for P may rest on
+		// that precondition: it is known after the call in P's run only
+		e.curAssumeProps = taggedWith(ct, cl.Props)
 		e.assume(st, g)
+		e.curAssumeProps = nil
 	}
 	if g := ct.Attrs["result-content"]; g != "" && len(rvals) >= 1 && len(targs) > 0 {
 		// (ghost) what the returned reader yields, as of now, attached to the receiver
@@ -1340,4 +1351,18 @@ func (e *Exec) tokAxioms() {
 	e.smt.declareFun("tok.cat", []string{SInt, SInt}, SInt)
 	e.smt.declare("tok.empty", SInt)
 	e.smt.axiom("tok.unit", "(assert (forall ((x Int)) (! (and (= (tok.cat tok.empty x) x) (= (tok.cat x tok.empty) x)) :pattern ((tok.cat tok.empty x)) :pattern ((tok.cat x tok.empty)))))")
+}
+
+// taggedWith: the properties among props for which ct has a precondition stated for that property only.
+func taggedWith(ct *Contract, props []string) []string {
+	var out []string
+	for _, p := range props {
+		for _, r := range ct.Requires {
+			if has(r.Props, p) {
+				out = append(out, p)
+				break
+			}
+		}
+	}
+	return out
 }
